@@ -37,6 +37,9 @@ SelectFacts.vos SelectFacts.vok SelectFacts.required_vos: SelectFacts.v Graph.vo
 GraphCheck.vo GraphCheck.glob GraphCheck.v.beautified GraphCheck.required_vo: GraphCheck.v Graph.vo Priority.vo Select.vo
 GraphCheck.vio: GraphCheck.v Graph.vio Priority.vio Select.vio
 GraphCheck.vos GraphCheck.vok GraphCheck.required_vos: GraphCheck.v Graph.vos Priority.vos Select.vos
+Build.vo Build.glob Build.v.beautified Build.required_vo: Build.v Graph.vo
+Build.vio: Build.v Graph.vio
+Build.vos Build.vok Build.required_vos: Build.v Graph.vos
 Dataflow.vo Dataflow.glob Dataflow.v.beautified Dataflow.required_vo: Dataflow.v Graph.vo Sched.vo
 Dataflow.vio: Dataflow.v Graph.vio Sched.vio
 Dataflow.vos Dataflow.vok Dataflow.required_vos: Dataflow.v Graph.vos Sched.vos
@@ -64,6 +67,9 @@ IsoFacts.vos IsoFacts.vok IsoFacts.required_vos: IsoFacts.v Graph.vos GraphFacts
 Compose.vo Compose.glob Compose.v.beautified Compose.required_vo: Compose.v Graph.vo
 Compose.vio: Compose.v Graph.vio
 Compose.vos Compose.vok Compose.required_vos: Compose.v Graph.vos
+ComposeFacts.vo ComposeFacts.glob ComposeFacts.v.beautified ComposeFacts.required_vo: ComposeFacts.v Graph.vo GraphFacts.vo Closure.vo Compose.vo
+ComposeFacts.vio: ComposeFacts.v Graph.vio GraphFacts.vio Closure.vio Compose.vio
+ComposeFacts.vos ComposeFacts.vok ComposeFacts.required_vos: ComposeFacts.v Graph.vos GraphFacts.vos Closure.vos Compose.vos
 History.vo History.glob History.v.beautified History.required_vo: History.v Graph.vo Select.vo
 History.vio: History.v Graph.vio Select.vio
 History.vos History.vok History.required_vos: History.v Graph.vos Select.vos
@@ -121,6 +127,9 @@ Properties/C15.vos Properties/C15.vok Properties/C15.required_vos: Properties/C1
 Properties/C18.vo Properties/C18.glob Properties/C18.v.beautified Properties/C18.required_vo: Properties/C18.v Graph.vo Select.vo SelectFacts.vo History.vo HistoryFacts.vo
 Properties/C18.vio: Properties/C18.v Graph.vio Select.vio SelectFacts.vio History.vio HistoryFacts.vio
 Properties/C18.vos Properties/C18.vok Properties/C18.required_vos: Properties/C18.v Graph.vos Select.vos SelectFacts.vos History.vos HistoryFacts.vos
+Properties/C19.vo Properties/C19.glob Properties/C19.v.beautified Properties/C19.required_vo: Properties/C19.v Graph.vo Closure.vo Sched.vo SchedInv.vo Dataflow.vo DataflowFacts.vo Iso.vo IsoFacts.vo Compose.vo ComposeFacts.vo
+Properties/C19.vio: Properties/C19.v Graph.vio Closure.vio Sched.vio SchedInv.vio Dataflow.vio DataflowFacts.vio Iso.vio IsoFacts.vio Compose.vio ComposeFacts.vio
+Properties/C19.vos Properties/C19.vok Properties/C19.required_vos: Properties/C19.v Graph.vos Closure.vos Sched.vos SchedInv.vos Dataflow.vos DataflowFacts.vos Iso.vos IsoFacts.vos Compose.vos ComposeFacts.vos
 Properties/C20.vo Properties/C20.glob Properties/C20.v.beautified Properties/C20.required_vo: Properties/C20.v Graph.vo Sched.vo SchedInv.vo Dataflow.vo DataflowFacts.vo Iso.vo IsoFacts.vo
 Properties/C20.vio: Properties/C20.v Graph.vio Sched.vio SchedInv.vio Dataflow.vio DataflowFacts.vio Iso.vio IsoFacts.vio
 Properties/C20.vos Properties/C20.vok Properties/C20.required_vos: Properties/C20.v Graph.vos Sched.vos SchedInv.vos Dataflow.vos DataflowFacts.vos Iso.vos IsoFacts.vos
